@@ -234,6 +234,8 @@ def route_histogram(chk, cases, bad, extra):
     import c03_probe
     c03_probe.run(chk, extra)
     c03_probe.run_bounded_probe(chk, extra)
+    import c03_keyed_probe
+    c03_keyed_probe.run(chk, extra)
 
 
 def run(tier, assumptions):
@@ -289,6 +291,9 @@ def replay(path):
     if raw.get("kind") == "probe":
         import c03_probe
         return c03_probe.replay(raw["scenario"])
+    if raw.get("kind") == "probe-keyed":
+        import c03_keyed_probe
+        return c03_keyed_probe.replay(raw["scenario"])
     if raw.get("kind") == "probe-bounded":
         import c03_probe
         return c03_probe.replay_bounded(raw["scenario"])
